@@ -128,6 +128,14 @@ mod sharded_set;
 mod small_bytes;
 pub mod string;
 pub mod string_key;
+#[cfg(isographlabs_isograph_verif)]
+pub mod verif_hooks;
+#[cfg(isographlabs_isograph_verif)]
+#[doc(hidden)]
+pub mod verif_exports {
+    pub use crate::atomic_arena::AtomicArena;
+    pub use crate::atomic_arena::Ref;
+}
 #[doc(hidden)]
 pub use crate::atomic_arena::Zero;
 #[doc(inline)]
